@@ -78,16 +78,19 @@ func (c *Client) Handshake() error {
 			if !c.state.CompareAndSwap(clientStateCreated, clientStateHandshaking) {
 				continue
 			}
+			verifYield("Client.Handshake.elected")
 
 			err := c.clientHandshakeLocked()
 			if err != nil {
 				// Store the error before publishing clientStateError so concurrent callers cannot observe an uninitialized result.
 				c.err = err
 				if c.state.CompareAndSwap(clientStateHandshaking, clientStateError) {
+					verifYield("Client.Handshake.errorPublished")
 					c.hs = nil
 					c.ss = nil
 				}
 			}
+			verifYield("Client.Handshake.finished")
 			close(c.handshakeDone)
 
 			// Recheck after completion because Close may have changed the state while the handshake was running.
@@ -634,7 +637,9 @@ func (c *Client) Close() error {
 closing:
 	// Closing the underlying connection is what guarantees that an in-flight
 	// handshake, read, or write cannot prevent Close from completing.
+	verifYield("Client.Close.elected")
 	c.closeErr = c.underlyingConn.Close()
+	verifYield("Client.Close.connClosed")
 
 	if previous == clientStateHandshaking {
 		<-c.handshakeDone
@@ -644,6 +649,7 @@ closing:
 		_ = c.ss.handle.Close()
 	}
 
+	verifYield("Client.Close.workersDone")
 	c.state.Store(clientStateClosed)
 	close(c.closeDone)
 	return c.closeErr
